@@ -212,6 +212,10 @@ def forbidden_gate():
             txt = strip_coq_comments(open(os.path.join(d, fn)).read())
             for m in FORBIDDEN.finditer(txt):
                 hits.append('%s/%s: %s' % (sub, fn, m.group(0)))
+            # libraries that bring the real-number / classical / extensionality axioms into the loaded context (Lqa is the Q version
+            # of lra / nra and loads none): the trusted base states that none of them is loaded, so importing one is refused
+            for m in re.finditer(r'Require\s+(?:Import|Export)?[^.]*\b(Lra|Psatz|Reals|Rbase|Fourier|Classical\w*|FunctionalExtensionality|ProofIrrelevance|Epsilon|ChoiceFacts)\b', txt):
+                hits.append('%s/%s: imports %s (loads axioms)' % (sub, fn, m.group(1)))
             # Variable / Hypothesis outside a section
             depth = 0
             for line in txt.splitlines():
